@@ -11,17 +11,36 @@ rsync -a --exclude .git /repo/ $S/
 cd $S
 demos=$(ls $SEED | grep '_test.go$')
 place_demo() { for d in $demos; do
-   # directory named in NOTES.md for this file (relative to the worktree), else by package clause
-   dir=$(grep -o "[A-Za-z0-9_./-]*$d" $SEED/NOTES.md | grep / | head -1 | sed -e "s|^/tmp/wt/[A-Z0-9]*/||" -e "s|^/tmp/seed/[^ ]*||" -e "s|/$d$||")
-   case "$dir" in v2|v2/jd|lib|.|"") ;; *) dir="";; esac
-   if [ -z "$dir" ]; then
-     if grep -q '^package main' $SEED/$d; then
-       if grep -q 'v2\.\|jd/v2"' $SEED/$d && ! grep -q 'jd/lib"' $SEED/$d; then dir=v2/jd; else dir=.; fi
-     elif grep -q 'josephburnett/jd/lib"' $SEED/$d; then dir=.
-     else dir=v2; fi
-   fi
+   dir=$(python3 - "$SEED" "$d" <<'PY'
+import re,sys,os
+seed,d=sys.argv[1],sys.argv[2]
+notes=open(os.path.join(seed,'NOTES.md')).read() if os.path.exists(os.path.join(seed,'NOTES.md')) else ''
+src=open(os.path.join(seed,d)).read()
+cand=None
+lines=[l for l in notes.splitlines() if d in l]+[l for l in notes.splitlines() if re.search(r'\b[Cc]opy\b', l)]+[l for l in src.splitlines()[:12] if 'opy' in l]
+for line in lines:
+    if True:
+        m=re.search(r'/tmp/wt/C\d+((?:/[A-Za-z0-9_]+)*)/?', line)
+        if m:
+            sub=m.group(1).strip('/')
+            if sub.endswith('.go') or os.path.basename(sub).startswith('zz') or os.path.basename(sub)==d[:-3]: sub=os.path.dirname(sub)
+            if sub in ('','v2','v2/jd','lib'):
+                cand=sub or '.'
+                break
+        m=re.search(r'`((?:v2/jd|v2|lib))/?`', line)
+        if m: cand=m.group(1); break
+if cand is None:
+    if re.search(r'^package main', src, re.M):
+        cand='v2/jd' if 'jd/v2"' in src and 'jd/lib"' not in src else '.'
+    elif 'josephburnett/jd/lib"' in src: cand='.'
+    else: cand='v2'
+print(cand)
+PY
+)
    cp $SEED/$d $S/$dir/; done; }
-run_demo() { (cd $S && go test -count=1 -run 'Seed|seed|Demo|demo|ZZ|Zz' ./... 2>&1; cd $S/v2 && go test -count=1 -run 'Seed|seed|Demo|demo|ZZ|Zz' ./... 2>&1) | grep -v 'no test files\|web/ui\|build constraints\|^FAIL$' ; }
+TESTRE=$(cat $(for d in $demos; do echo $SEED/$d; done) 2>/dev/null | grep -o '^func Test[A-Za-z0-9_]*' | sed 's/func //' | sort -u | paste -sd'|')
+[ -z "$TESTRE" ] && TESTRE='Seed|seed|Demo|demo'
+run_demo() { (cd $S && go test -count=1 -run "^($TESTRE)\$" ./... 2>&1; cd $S/v2 && go test -count=1 -run "^($TESTRE)\$" ./... 2>&1) | grep -v 'no test files\|web/ui\|build constraints\|^FAIL$' ; }
 place_demo
 for extra in $(ls $SEED | grep -v '_test.go$\|NOTES.md\|patch.diff'); do cp -r $SEED/$extra $S/v2/ 2>/dev/null; cp -r $SEED/$extra $S/v2/jd/ 2>/dev/null; cp -r $SEED/$extra $S/ 2>/dev/null; done
 echo "--- demo WITHOUT change"; run_demo | tail -6
